@@ -30,7 +30,7 @@ var c18Magnitudes = []string{
 	"9007199254740991", "9007199254740992", "9007199254740993", "-9007199254740993",
 	"9223372036854775807", "9223372036854775808", "9223372036854775809", "9223372036854777856",
 	"-9223372036854775807", "-9223372036854775808", "-9223372036854775809", "-9223372036854777856",
-	"10000000000000000000", "-10000000000000000000", "18446744073709551616",
+	"10000000000000000000", "-10000000000000000000", "18446744073709551616", "18446744073709551615", "18446744073709551611", "18446744071562067968",
 	"340282346638528859811704183484516925440",  // MaxFloat32
 	"340282346638528897590636046441678635008",  // next float64 above MaxFloat32
 	"340282356779733661637539395458142568448",  // halfway to 2^128: rounds to +Inf in float32
@@ -136,6 +136,18 @@ func c18Inputs(m string) []c18Input {
 			out = append(out, c18Input{"int", int(v), r, "", fmt.Sprintf("int(%d)", v)})
 			if v >= math.MinInt32 && v <= math.MaxInt32 {
 				out = append(out, c18Input{"int32", int32(v), r, "", fmt.Sprintf("int32(%d)", v)})
+			}
+		}
+	}
+	if r.IsInt() && r.Sign() >= 0 {
+		// unsigned Go values (what a counter, an id or a size read from another API is typed as)
+		n := r.Num()
+		if n.IsUint64() {
+			u := n.Uint64()
+			out = append(out, c18Input{"uint64", u, r, "", fmt.Sprintf("uint64(%d)", u)})
+			out = append(out, c18Input{"uint", uint(u), r, "", fmt.Sprintf("uint(%d)", u)})
+			if u <= math.MaxUint32 {
+				out = append(out, c18Input{"uint32", uint32(u), r, "", fmt.Sprintf("uint32(%d)", u)})
 			}
 		}
 	}
